@@ -75,8 +75,14 @@ GONE = {'pipe': BrokenPipeError, 'reset': ConnectionResetError, 'os': OSError, '
 class FakeSock:
     def __init__(self, chunks, gone=None):
         self.chunks = list(chunks)
-        self.out = []
-        self.gone = gone       # {'after': n, 'exc': kind}: the peer goes away, only the first n calls of sendall succeed
+        self.out = []          # the byte strings of the sendall calls that completed
+        self.wire = []         # every piece that went out, in order: what the peer receives
+        self.ncalls = 0
+        self.failed = []       # (number of the call, frame handed to it) of the calls that raised
+        # {'after': n, 'exc': kind, 'written': k, 'back': bool}: the first n calls of sendall succeed; call n writes
+        # min(k, len(frame) - 1) bytes of its frame and raises; later calls raise as well (the peer is gone for good),
+        # or, with 'back', succeed (the peer was slow / the buffer was full, and takes data again)
+        self.gone = gone
 
     def settimeout(self, t):
         pass
@@ -94,9 +100,19 @@ class FakeSock:
         return size
 
     def sendall(self, b):
-        if self.gone is not None and len(self.out) >= self.gone['after']:
-            raise GONE[self.gone['exc']]('the peer is gone')
-        self.out.append(bytes(b))
+        b = bytes(b)
+        n = self.ncalls
+        self.ncalls += 1
+        g = self.gone
+        if g is not None and n >= g['after'] and (n == g['after'] or not g.get('back')):
+            self.failed.append((n, b))
+            if n == g['after']:
+                part = b[:max(0, min(g.get('written', 0), len(b) - 1))]
+                if part:
+                    self.wire.append(part)
+            raise GONE[g['exc']]('the peer is gone')
+        self.out.append(b)
+        self.wire.append(b)
 
     def shutdown(self, how):
         pass
@@ -163,6 +179,70 @@ def secop_by_name():
     return SECOP_BY_NAME
 
 
+# ----------------------------------------------------------------------------------------
+# errors as driver code raises them: any SECoPError class, with any arguments (none, several, objects that are not
+# strings: the exception that was caught, an error code ...), having passed any number of read / write wrappers
+# ----------------------------------------------------------------------------------------
+ERR_CLASSES = ['HardwareError', 'CommunicationFailedError', 'SilentCommunicationFailedError', 'ProgrammingError', 'ConfigError',
+               'NotImplementedSECoPError', 'RangeError', 'BadValueError', 'InternalError', 'SECoPError', 'TimeoutSECoPError',
+               'ReadFailedError', 'WrongTypeError', 'IsErrorError', 'CommandFailedError', 'ImpossibleError']
+ERR_ARGS = {
+    'str': lambda: ('device says no',),
+    'none': lambda: (),
+    'empty': lambda: ('',),
+    'int': lambda: (42,),
+    'float': lambda: (2.5,),
+    'None': lambda: (None,),
+    'bool': lambda: (False,),
+    'exc': lambda: (OSError(5, 'Input/output error'),),
+    'exc0': lambda: (ValueError(),),
+    'keyerr': lambda: (KeyError('k'),),
+    'secop': lambda: (__import__('frappy.errors').errors.HardwareError('inner', 3),),
+    'bytes': lambda: (b'x\xff\n',),
+    'two': lambda: ('a', 'b'),
+    'fmt': lambda: ('bad reply %r', b'\x00?'),
+    'mixed': lambda: ('text', 3, None, 1.5),
+    'tuple': lambda: (('a', 1),),
+    'dict': lambda: ({'code': 7},),
+    'list': lambda: ([1, 'x'],),
+    'unicode': lambda: ('gr\u00fc\u00df \u2028 \U0001f600',),
+    'newline': lambda: ('line1\nline2',),
+    'surrogate': lambda: ('\ud800',),
+    'type': lambda: (KeyError,),
+    'kw': lambda: ('msg',),
+}
+ERR_METHODS = [[], [], ['m.write_target'], ['m.read_value'], ['m.read_value', 'n.read_x'], ['a.read_b', 'c.write_d', 'e.read_f']]
+PLAIN_EXC = {'exc': lambda: KeyError('k'), 'excz': ZeroDivisionError, 'excu': lambda: UnicodeDecodeError('utf-8', b'\xff', 0, 1, 'x'),
+             'excr': RecursionError, 'exca': lambda: AssertionError('a\nb'), 'excs': StopIteration,
+             'exco': lambda: OSError(5, 'Input/output error'), 'excn': Exception, 'excm': lambda: Exception('a', 3, None),
+             'excb': lambda: ValueError(b'\xff', ValueError())}
+
+
+def build_error(spec):
+    """`Class:args:methods` -> the error object, as driver code would have raised it and the wrappers marked it"""
+    import frappy.errors as fe
+    cname, shape, nm = (spec.split(':') + ['0'])[:3]
+    cls = getattr(fe, cname, fe.HardwareError)
+    e = cls(*ERR_ARGS[shape](), **({'reply': b'\x15'} if shape == 'kw' else {}))
+    e.raising_methods.extend(ERR_METHODS[int(nm) % len(ERR_METHODS)])
+    return e
+
+
+def err_info(e):
+    """what SECoPError.format looks at, for the model of the error text; str() / repr() of the argument objects
+    are Python's (parameters of the model)"""
+    try:
+        return {'registered': type(e).name2class.get(e.name) == type(e), 'tname': hx(enc(type(e).__name__)),
+                'methods': [hx(enc(m)) for m in (e.raising_methods or [])],
+                'args': [{'s': hx(enc(str(a))), 'r': hx(enc(repr(a)))} for a in e.args]}
+    except Exception:
+        return None
+
+
+def gen_err_kind(rng):
+    return 'err:%s:%s:%d' % (rng.choice(ERR_CLASSES), rng.choice(sorted(ERR_ARGS)), rng.randrange(len(ERR_METHODS)))
+
+
 class StubDispatcher:
     """does, per call, what the plan says (cyclic); records what it was asked and what it did"""
 
@@ -207,13 +287,16 @@ class StubDispatcher:
             rec.update(r='ok', **triple_rec(reply))
             return reply
         if kind.startswith('secop:'):
-            cls = secop_by_name()[kind[6:]]
-            rec.update(r='secop', cls=hx(cls.name.encode()))
-            raise cls('scripted %s' % kind)
+            e = secop_by_name()[kind[6:]]('scripted %s' % kind)
+            rec.update(r='secop', cls=hx(e.name.encode()), err=err_info(e))
+            raise e
+        if kind.startswith('err:'):
+            e = build_error(kind[4:])
+            rec.update(r='secop', cls=hx(str(e.name).encode()), err=err_info(e))
+            raise e
         if kind.startswith('exc'):
             rec.update(r='exc')
-            raise {'exc': KeyError('k'), 'excz': ZeroDivisionError(), 'excu': UnicodeDecodeError('utf-8', b'\xff', 0, 1, 'x'),
-                   'excr': RecursionError(), 'exca': AssertionError('a\nb'), 'excs': StopIteration()}[kind]
+            raise PLAIN_EXC[kind]()
         rec.update(r='garbage')
         return {'none': None, 'empty': (), 'int': 5, 'unser': ('reply', spec, {1, 2}),
                 'errshape': ('error_x', None, None), 'nonstr': (5, None, None), 'list0': [], 'str0': '',
@@ -222,6 +305,7 @@ class StubDispatcher:
 
 STUB_KINDS = ['ok', 'ok', 'okd', 'okd', 'oka', 'oke', 'secop:NoSuchModule', 'secop:ProtocolError', 'secop:RangeError',
               'secop:InternalError', 'secop:TimeoutError', 'secop:NotImplemented', 'exc', 'excz', 'excu', 'excr', 'exca', 'excs',
+              'exco', 'excn', 'excm', 'excb',
               'none', 'empty', 'int', 'unser', 'errshape', 'nonstr', 'list0', 'str0', 'obj']
 
 
@@ -254,7 +338,7 @@ class RecordingDispatcher:
         try:
             reply = self.real.handle_request(conn, msg)
         except SECoPError as e:
-            rec.update(r='secop', cls=hx(str(e.name).encode()))
+            rec.update(r='secop', cls=hx(str(e.name).encode()), err=err_info(e))
             raise
         except Exception:
             rec.update(r='exc')
@@ -281,7 +365,19 @@ class ServerStub:
 _node_counter = [0]
 
 
-def make_real_node(nan):
+FAULT_PLACES = ['read_value', 'write_target', 'write_s', 'twice', 'stop']
+
+
+def gen_faults(rng):
+    """which driver functions of module m / n fail, and how"""
+    res = {}
+    for _ in range(rng.choice([1, 1, 2, 3])):
+        spec = gen_err_kind(rng)[4:] if rng.random() < 0.8 else rng.choice(sorted(PLAIN_EXC))
+        res[rng.choice('mmn') + '.' + rng.choice(FAULT_PLACES)] = spec
+    return res
+
+
+def make_real_node(nan, faults=None):
     """a small real node: SecNode + Dispatcher + two modules, without Server"""
     import mlzlog
     import frappy.secnode
@@ -297,22 +393,36 @@ def make_real_node(nan):
         target = Parameter('t', FloatRange(), default=0)
         s = Parameter('s', StringType(), default='', readonly=False)
         raw = 0.5
+        faults = {}      # driver function -> the error it raises (`Class:args:methods` or the name of a plain exception)
+
+        def fault(self, where):
+            spec = self.faults.get(where)
+            if spec:
+                raise PLAIN_EXC[spec]() if spec in PLAIN_EXC else build_error(spec)
 
         def read_value(self):
+            self.fault('read_value')
             return self.raw
 
         def write_target(self, v):
+            self.fault('write_target')
             self.raw = v
+            return v
+
+        def write_s(self, v):
+            self.fault('write_s')
             return v
 
         @Command(FloatRange(), result=FloatRange())
         def twice(self, x):
             """twice"""
+            self.fault('twice')
             return 2 * x
 
         @Command()
         def stop(self):
             """stop"""
+            self.fault('stop')
 
     class Srv:
         restart = shutdown = None
@@ -340,6 +450,9 @@ def make_real_node(nan):
         srv.secnode.get_module(name)
     if nan:
         srv.secnode.modules['m'].raw = float('nan')
+    for key, spec in (faults or {}).items():
+        mod = srv.secnode.modules[key.split('.')[0]]
+        mod.faults = dict(mod.faults, **{key.split('.')[1]: spec})
     return srv
 
 
@@ -350,7 +463,7 @@ def _reject(name):
 def line_flags(frame, check_strict=True):
     """the two implementation-side tests of the statement, per emitted line; strictness of the data part is tested
     only when a real frappy layer (the real Dispatcher and datatypes) produced the data: what a stub dispatcher hands
-    over is the harness's own input"""
+    over is the harness's own input -- there the data part must still be a JSON text for Python's lenient parser"""
     try:
         text = frame.decode('utf-8')
         utf8 = True
@@ -358,9 +471,12 @@ def line_flags(frame, check_strict=True):
         return [False, True]
     data = (text.rstrip('\n').split(' ', 2) + ['', ''])[2]
     strict = True
-    if data != '' and check_strict:
+    if data != '':
         try:
-            json.loads(data, parse_constant=_reject)
+            if check_strict:
+                json.loads(data, parse_constant=_reject)
+            else:
+                json.loads(data)     # a JSON text at least (a line spliced from two frames has none)
         except Exception:
             strict = False
     return [utf8, strict]
@@ -399,7 +515,7 @@ def make_dispatcher(disp):
     """the dispatcher of a case: a stub, or the real Dispatcher of a fresh small node (returned unwrapped)"""
     if disp['kind'] == 'stub':
         return StubDispatcher(disp['plan'], disp.get('by_request', False))
-    node = make_real_node(disp.get('nan', False))
+    node = make_real_node(disp.get('nan', False), disp.get('faults'))
     if disp.get('ts'):
         # a time stamp handed in from outside (proxy / sea modules relay the remote node's), here not finite
         node.secnode.modules['m'].announceUpdate('value', 2.0, None, float(disp['ts']))
@@ -423,7 +539,8 @@ def run_impl(case, shared=None):
         TCPRequestHandler(sock, ('127.0.0.1', 4711), srv)
     died = [e for e in srv.log.errors if e and isinstance(e[0], str) and e[0].startswith('Traceback')]
     return {'outs': sock.out, 'calls': d.calls, 'script': d.script, 'died': bool(died),
-            'died_text': died[0][0][-400:] if died else None}
+            'died_text': died[0][0][-400:] if died else None, 'received': b''.join(sock.wire),
+            'torn': sock.failed[0][1] if sock.failed else None, 'send_calls': sock.ncalls}
 
 
 # ----------------------------------------------------------------------------------------
@@ -676,6 +793,8 @@ def gen_session(rng):
         streams.append(stream)
     if rng.random() < 0.75:
         disp = {'kind': 'real', 'nan': rng.random() < 0.1}
+        if rng.random() < 0.15:
+            disp['faults'] = gen_faults(rng)
     else:
         disp = {'kind': 'stub', 'plan': gen_plan(rng), 'by_request': True}
     return streams, disp
@@ -936,31 +1055,85 @@ def evaluate(ctx, cases, impls=None):
     distinct = list(dict.fromkeys(streams))
     tables = dict(zip(distinct, oracle_tables(ctx, distinct)))
     reqs = []
+    slots = []       # per case: where its answers are in the batch
     for c, im, s in zip(cases, impls, streams):
         utf8, js = tables[s]
         gone = c.get('gone')
+        real = c['disp']['kind'] == 'real'
+        slot = {'model': len(reqs)}
         reqs.append({'p': 'C07', 'k': 'serve', 'chunks': c['chunks'], 'utf8': utf8, 'json': js, 'script': im['script'],
                      'fail_after': gone['after'] if gone else None})
+        slot['judge'] = len(reqs)
         if gone:
             reqs.append({'p': 'C07', 'k': 'judge_gone', 'stream': hx(s), 'outs': [hx(o) for o in im['outs']]})
+            # what the peer has received, byte for byte (with the part of the frame whose send failed), cut at newlines
+            slot['received'] = len(reqs)
+            got = im['received']
+            reqs.append({'p': 'C07', 'k': 'judge_received', 'stream': hx(s), 'received': hx(got),
+                         'flags': [line_flags(ln + b'\n', real) for ln in got.split(b'\n')[:-1]]})
         else:
             reqs.append({'p': 'C07', 'k': 'judge', 'stream': hx(s), 'outs': [hx(o) for o in im['outs']],
-                         'flags': [line_flags(o, c['disp']['kind'] == 'real') for o in im['outs']]})
-    real = [i for i, c in enumerate(cases) if c['disp']['kind'] == 'real']
-    for i in real:
-        reqs.append(dispatch_request(impls[i]))
+                         'flags': [line_flags(o, real) for o in im['outs']]})
+        errs = [rec['err'] for rec in im['script'] if rec.get('err')]
+        if errs:
+            slot['errtext'] = len(reqs)
+            reqs.append({'p': 'C07', 'k': 'errtext', 'errors': errs})
+        if real:
+            slot['dmodel'] = len(reqs)
+            reqs.append(dispatch_request(im))
+        slots.append(slot)
     ans = ctx.driver.batch(reqs)
     out = []
-    for i, (c, im, s) in enumerate(zip(cases, impls, streams)):
-        model, judge = ans[2 * i], ans[2 * i + 1]
-        if 'driver_error' in model or 'driver_error' in judge:
-            raise RuntimeError(f'driver error: {model} {judge} on {c}')
-        out.append({'case': c, 'impl': im, 'model': model, 'judge': judge, 'stream': s})
-    for i, a in zip(real, ans[2 * len(cases):]):
-        if 'driver_error' in a:
-            raise RuntimeError(f'driver error: {a} on {cases[i]}')
-        out[i]['dmodel'] = a
+    for c, im, s, slot in zip(cases, impls, streams, slots):
+        for a in slot.values():
+            if 'driver_error' in ans[a]:
+                raise RuntimeError(f'driver error: {ans[a]} on {c}')
+        model, judge = ans[slot['model']], ans[slot['judge']]
+        if 'received' in slot and judge['bad'] is None:
+            judge = dict(ans[slot['received']], on='received')
+        ev = {'case': c, 'impl': im, 'model': model, 'judge': judge, 'stream': s}
+        if 'errtext' in slot:
+            ev['errtext'] = ans[slot['errtext']]['texts']
+        if 'dmodel' in slot:
+            ev['dmodel'] = ans[slot['dmodel']]
+        out.append(ev)
     return out
+
+
+def reply_texts(im, model):
+    """per dispatcher call the text of the error report in the reply to it (None: no such reply / no text): the
+    replies are the emitted lines which the model calls replies, one per request line, in order; the model says which
+    request lines reach the dispatcher"""
+    replies = [o for o, mo in zip(im['outs'], model['outs']) if mo['k'] == 'reply']
+    res = []
+    for ln, call in enumerate(model.get('callidx', [])):
+        if call is None:
+            continue
+        text = None
+        if ln < len(replies):
+            body = replies[ln][:-1].split(b' ', 2)
+            try:
+                data = json.loads(body[2]) if len(body) == 3 else None
+                if isinstance(data, list) and len(data) == 3 and isinstance(data[1], str):
+                    text = data[1]
+            except Exception:
+                pass
+        res.append(text)
+    return res
+
+
+def compare_errtext(ev):
+    """the text of the error report (`str(err)` evaluated by the request loop) vs the model of SECoPError.format"""
+    im, model = ev['impl'], ev['model']
+    texts = reply_texts(im, model)
+    expected = iter(ev['errtext'])
+    for k, rec in enumerate(im['script']):
+        if not rec.get('err'):
+            continue
+        want = bytes.fromhex(next(expected))
+        if k < len(texts) and texts[k] is not None and enc(texts[k]) != want:
+            return {'what': 'text of the error report', 'index': k, 'model': want[:120], 'impl': enc(texts[k])[:120]}
+    return None
 
 
 def compare(ev):
@@ -980,6 +1153,19 @@ def compare(ev):
             return {'what': 'request seen by the dispatcher', 'index': k, 'model': mc, 'impl': repr(ic)[:200]}
     if not model['same_as_unsegmented']:
         return {'what': 'model output depends on the segmentation', 'model': None, 'impl': None}
+    if ev['case'].get('gone'):
+        # the frame handed to the sendall call that raised, and no call of sendall after it
+        mt = None if model['torn'] is None else {k: model['torn'][k] for k in 'ascd'}
+        it = None if im['torn'] is None else obs_frame(im['torn'])
+        if mt != it:
+            return {'what': 'frame whose send failed', 'model': mt, 'impl': it}
+        want = len(model['outs']) + (1 if mt is not None else 0)
+        if im['send_calls'] != want:
+            return {'what': 'number of sendall calls', 'model': want, 'impl': im['send_calls']}
+    if 'errtext' in ev:
+        dis = compare_errtext(ev)
+        if dis is not None:
+            return dis
     if 'dmodel' in ev:
         return compare_dispatch(ev)
     return None
@@ -1148,7 +1334,14 @@ def gen_plan(rng):
     n = rng.choice([1, 2, 3, 5])
     if rng.random() < 0.35:
         return [rng.choice(['ok', 'okd', 'oka', 'oke']) for _ in range(n)]
-    return [rng.choice(STUB_KINDS) for _ in range(n)]
+    return [rng.choice(STUB_KINDS) if rng.random() < 0.7 else gen_err_kind(rng) for _ in range(n)]
+
+
+def gen_gone(rng):
+    """a send that fails: the first `after` calls of sendall succeed, the next one writes `written` bytes of its frame
+    (never all of it) and raises; after that the peer is gone for good, or (`back`) takes data again"""
+    return {'after': rng.choice([0, 1, 1, 2, 3, 5, 11, 12, 13, 14, 20]), 'exc': rng.choice(sorted(GONE)),
+            'written': rng.choice([0, 0, 1, 3, 5, 6, 8, 12, 20, 10 ** 6]), 'back': rng.random() < 0.6}
 
 
 def case_of(chunks, disp):
@@ -1182,7 +1375,7 @@ def request_class(line):
 
 def signature(ev):
     if ev['case'].get('gone'):
-        return 'C07:peer_gone:' + ev['judge']['bad']['clause']
+        return 'C07:peer_gone:' + ev['judge']['bad']['clause'] + (':received' if ev['judge'].get('on') else '')
     bad = ev['judge']['bad']
     clause = bad['clause']
     lines = ev['stream'].split(b'\n')[:-1]
@@ -1245,7 +1438,11 @@ def describe(ev):
         outs = outs[:4] + [f'... {len(outs) - 7} more ...'] + outs[-3:]
     txt = f'{bad}: chunks={[bytes.fromhex(c)[:80] for c in ev["case"]["chunks"]][:6]} dispatcher={ev["case"]["disp"]} sent={outs}'
     if ev['case'].get('gone'):
-        txt += f" (sendall fails from call {ev['case']['gone']['after']} on: {ev['case']['gone']['exc']})"
+        g = ev['case']['gone']
+        txt += (f" (sendall call {g['after']} raises {GONE[g['exc']].__name__} after {g.get('written', 0)} bytes of its frame"
+                f"{', later calls succeed' if g.get('back') else ', all later calls raise'}); the peer has received "
+                f"{[ln[:80] for ln in ev['impl']['received'].split(bytes([10]))][max(0, g['after'] - 1):g['after'] + 3]}"
+                f" (lines {max(0, g['after'] - 1)}..)")
     if ev['impl']['died']:
         txt += ' HANDLER DIED: ' + ev['impl']['died_text'].strip().splitlines()[-1]
     return txt
@@ -1296,6 +1493,8 @@ def run(ctx):
         disp = {'kind': 'real', 'nan': rng.random() < 0.1} if real else {'kind': 'stub', 'plan': gen_plan(rng)}
         if real and rng.random() < 0.1:
             disp['ts'] = rng.choice(['nan', 'inf', '-inf'])
+        if real and rng.random() < 0.3:
+            disp['faults'] = gen_faults(rng)      # driver code that fails, with errors carrying any arguments
         if len(stream) < 300 and rng.random() < 0.02:
             disp['detailed'] = True      # detailed_errors=True: error reports keep exception text and stack dump
             if 'plan' in disp:           # an `error_x` triple without report is sent as it is when reports are not cleared
@@ -1303,7 +1502,7 @@ def run(ctx):
         for _ in range(2 if len(stream) < 3000 else 1):
             cases.append(case_of(segment(rng, stream), disp))
             if rng.random() < 0.1:      # the peer goes away: sendall fails from some call on
-                cases[-1]['gone'] = {'after': rng.choice([0, 1, 1, 2, 3, 5, 11, 12, 13, 14, 20]), 'exc': rng.choice(sorted(GONE))}
+                cases[-1]['gone'] = gen_gone(rng)
 
     shrunk = 0
     seen_sigs = set()
@@ -1323,6 +1522,10 @@ def run(ctx):
             res.count('dispatcher.' + case['disp']['kind'])
             if case.get('gone'):
                 res.count('peer-gone.' + case['gone']['exc'])
+                res.count('peer-gone.later-calls-' + ('succeed' if case['gone'].get('back') else 'raise'))
+                if im['torn'] is not None:
+                    npart = len(im['received']) - sum(len(o) for o in im['outs'])
+                    res.count('peer-gone.part-of-frame-written=%s' % ('0' if npart == 0 else '1-5' if npart < 6 else '6+'))
                 res.count('peer-gone.lines-processed=%s' % (ev['model'].get('done') if ev['model'].get('done', 9) < 4 else '4+'))
                 res.count('peer-gone.loop-stopped' if len(im['outs']) == case['gone']['after'] and
                           ev['model'].get('done', 0) < nlines else 'peer-gone.all-lines-processed')
@@ -1338,6 +1541,13 @@ def run(ctx):
                     res.count('error.' + bytes.fromhex(o['c']).decode('latin-1'))
             for rec in im['script']:
                 res.count('dispatcher-did.' + rec.get('r', '?'))
+                if rec.get('err'):
+                    na = len(rec['err']['args'])
+                    res.count('secop-error.args=%s' % (na if na < 2 else '2+'))
+                    res.count('secop-error.' + ('registered-class' if rec['err']['registered'] else 'class-name-in-text'))
+                    res.count('secop-error.raising-methods=%d' % len(rec['err']['methods']))
+            if case['disp'].get('faults'):
+                res.count('real-node.with-failing-driver-functions')
             if len(ev['stream']) > 60000:
                 res.count('stream>60000 bytes')
             if nlines >= 2 and len(case['chunks']) >= 2 and npos and nerr:
@@ -1475,6 +1685,8 @@ def replay(ctx, rp):
     print('chunks :', [bytes.fromhex(c)[:200] for c in case['chunks']])
     print('disp   :', case['disp'], 'peer gone:', case.get('gone'))
     print('impl   :', [o[:200] for o in ev['impl']['outs']])
+    if case.get('gone'):
+        print('peer received:', [ln[:200] for ln in ev['impl']['received'].split(bytes([10]))])
     print('did    :', [r.get('r') for r in ev['impl']['script']])
     if ev['impl']['died']:
         print('HANDLER DIED:', ev['impl']['died_text'])
